@@ -196,10 +196,12 @@ SPECS["C16"] = ("""property C16: reopen and rebuild preserve everything observab
    volatile file length); rebuild keeps the previous log and tables as the backup, copies the
    extra tables, and its new event map contains exactly the events the id index leads to, each
    8-byte aligned after the 8-byte header (no bytes of removed / replaced / deleted / ephemeral /
-   failed-store leftovers).  That rebuild preserves the ABSTRACT state (retrievable set, markers with
-   times) is checked by the differential run - full observation dump before vs after, on the
-   implementation and on the model, at every position - and is not yet a Coq theorem.""",
-  DBIMP, [
+   failed-store leftovers).  Proved for every reachable state (DbRebuild.v): the rebuilt store satisfies
+   all store invariants, every id lookup returns the same event, the same ids are deleted, extra tables
+   are copied.  That ADDRESS deletion markers (re-encoded through decode_naddr) keep their times, and
+   that queries answer identically, is checked by the differential run - full observation dump before
+   vs after, on the implementation and on the model, at every position.""",
+  DBIMP + "\nFrom Pocket Require Import DbIdInv DbIndexInv DbRebuild.", [
   ("C16_reopen_identity", "forall s, reopen s = s", "reopen_identity", ""),
   ("C16_rebuild_backup_partial",
    "forall s s', rebuild s = Ok s' -> bak s' = Some (log s, committed s) /\\ t_extra (committed s') = t_extra (committed s)",
@@ -207,6 +209,9 @@ SPECS["C16"] = ("""property C16: reopen and rebuild preserve everything observab
   ("C16_rebuild_compact_partial",
    "forall s s', rebuild s = Ok s' -> log_end s' = compact_end s (t_iter (t_i (committed s))) HEADER",
    "rebuild_compact", "compact_end: fold (align8 end + size) over the events of the id index, from the 8-byte header"),
+  ("C16_rebuild_preserves",
+   "forall ops names s', ops_wf ops -> rebuild (c_run ops (db_init names)) = Ok s' ->\n    FullInv s' /\\\n    (forall id, get_event_by_id s' id = get_event_by_id (c_run ops (db_init names)) id) /\\\n    (forall id, has_event s' id = has_event (c_run ops (db_init names)) id) /\\\n    (forall id, event_is_deleted s' id = event_is_deleted (c_run ops (db_init names)) id) /\\\n    t_extra (committed s') = t_extra (committed (c_run ops (db_init names)))",
+   "rebuild_preserves_reachable", "after ANY history: the rebuilt store satisfies every store invariant again (log, id index, all six secondary indexes exactly the image of the id index - so every later operation and query behaves as on an ordinarily built store), every id lookup returns the same event, the same ids are reported deleted, extra tables are copied"),
   ], """Example C16_example :
   let e := mkE (repeat 1 32) (repeat 2 32) (repeat 3 64) 1 5 [] [7] in
   let e2 := mkE (repeat 9 32) (repeat 2 32) (repeat 3 64) 1 6 [] [7;7;7] in
